@@ -21,6 +21,8 @@ from ._c05_helpers import (
     fn_of,
     header_removals,
     header_stores,
+    iteration_facts,
+    fmt_key,
     is_empty_literal,
     isinstance_atom,
     call_args,
@@ -52,7 +54,14 @@ LEVEL_TEXT = (
     "has already called on a path to that return (self.response.close() directly, through getattr or a local, self.close(), "
     "or a package helper that reaches one of these - followed through the call graph; a replaced self.response starts "
     "afresh) add up to at most one, and Response.close itself passes at most one such call per path; (R5.7) _clean_status returns (str, int) on every path and is the only "
-    "source of the stored status. It decides these clauses on all paths of the named functions, comparing structure by role "
+    "source of the stored status; (R5.8) in the methods of Headers, of the Response classes and of ClosingIterator (and in the functions of their "
+    "modules that they call) no `for` loop, comprehension or explicit-iterator `while ... next(it)` loop removes entries from - or inserts "
+    "entries before the end of - the very container it is walking in place and then goes on to another iteration (remove / pop / popitem / "
+    "clear / insert / discard, `del c[i]`, `del c[a:b]`, `c[a:b] = ...`, directly or through up to two levels of package helpers; the container "
+    "named by an attribute path or a parameter, through local aliases, iter / enumerate / zip / filter / map / itertools views, generator "
+    "expressions, package generator methods, or the object's own __iter__): otherwise the entry that slides into the freed position is "
+    "skipped, i.e. a close callback does not run or a header entry survives its removal. Loops over a copy (list(x), tuple(x), x[:], "
+    "x.copy()), loops over an index range, and a removal after which the loop is left are not touched by R5.8. It decides these clauses on all paths of the named functions, comparing structure by role "
     "rather than by spelling: branch conditions are evaluated over every status x method (so flipped, split, merged or "
     "hoisted conditions, conditional expressions, module-level constants and HTTPStatus members read the same), locals "
     "are followed through their reaching definitions, and one level of private helpers is followed (helpers that "
@@ -62,7 +71,10 @@ LEVEL_TEXT = (
     "that it calls; a local with several definitions is evaluated from those the status x method valuation lets reach "
     "the use). A helper that returns the body together with a flag as a tuple is not followed (ANALYSIS-ERROR). It does not decide that "
     "iri_to_uri emits only ASCII, that _RangeWrapper yields exactly the announced number of bytes, nor exception paths "
-    "inside close callbacks, nor that a user does not register the same callback (or the body's close) twice with call_on_close."
+    "inside close callbacks, nor that a user does not register the same callback (or the body's close) twice with call_on_close; "
+    "nor (R5.8) index arithmetic of loops that delete while counting (`while i < len(xs)`, `for i in range(len(xs))`, deleting collected "
+    "indexes in ascending order), additions at the end of a walked list (append / extend: the worklist idiom), or containers reached through "
+    "names the analysis cannot resolve (closure variables, results of calls); nor that the Headers removal primitives select the right entries."
 )
 TRUSTED = [
     "CPython ast and re._parser",
@@ -106,6 +118,7 @@ def run(ctx: Ctx) -> None:
         "R5.5": "Location / Content-Location stored by get_wsgi_headers have provenance iri_to_uri (or urljoin of such) and are stored whenever the header is present",
         "R5.6": "every return of get_app_iter is ClosingIterator(<iterable>, self.close); ClosingIterator runs every callback and the iterable's own close; Response.close closes the body and runs every _on_close entry; make_sequence keeps the consumed iterable's close; on no path is the wrapped iterable's close reached twice (called directly by get_app_iter while the returned iterator also carries self.close, carried twice, or called twice by Response.close)",
         "R5.7": "_clean_status returns (str, int) on every path, int-like statuses go through int(); the stored status comes only from _clean_status",
+        "R5.8": "in Headers, the Response classes and ClosingIterator (and the helpers of their modules that they call) no loop removes entries from, or inserts entries into, the very container it is walking in place and then goes on iterating: every callback / every header entry is visited",
     }.items():
         ctx.rule(rid, text)
     _r51_stores(ctx)
@@ -116,6 +129,7 @@ def run(ctx: Ctx) -> None:
     _r55(ctx)
     _r56(ctx)
     _r57(ctx)
+    _r58(ctx)
 
 
 # =====================================================================
@@ -205,6 +219,8 @@ def _existing_src(F: Fn, at, e: ast.AST, depth: int = 0) -> bool:
         return _existing_src(F, at, e.args[0], depth + 1)
     if isinstance(e, ast.Call) and isinstance(e.func, ast.Name) and e.func.id == "filter" and len(e.args) == 2:
         return _existing_src(F, at, e.args[1], depth + 1)  # a selection of the pairs
+    if isinstance(e, ast.Call) and not e.keywords and len(e.args) == 2 and (dotted(e.func) or "").rsplit(".", 1)[-1] in ("filterfalse", "takewhile", "dropwhile") and (F.resolve(e.func) or "itertools.").startswith("itertools."):
+        return _existing_src(F, at, e.args[1], depth + 1)  # itertools selections of the pairs
     if isinstance(e, (ast.GeneratorExp, ast.ListComp)) and len(e.generators) == 1 and isinstance(e.elt, ast.Name) and isinstance(e.generators[0].target, ast.Name) and e.generators[0].target.id == e.elt.id:
         return _existing_src(F, at, e.generators[0].iter, depth + 1)  # `(p for p in pairs if ...)`
     if isinstance(e, ast.Name):
@@ -1251,6 +1267,28 @@ class _Subst(ast.NodeTransformer):
         return n
 
 
+def _detached_copy(x: ast.AST) -> ast.AST:
+    """a deep copy of the expression alone.  copy.deepcopy would follow the `_parent` links (those of the shared
+    Load/Store/operator singletons lead into arbitrary modules) and drag whole module trees along."""
+    shared = (ast.expr_context, ast.operator, ast.boolop, ast.unaryop, ast.cmpop)
+
+    def cp(n: t.Any, parent: t.Any) -> t.Any:
+        if isinstance(n, ast.AST):
+            if isinstance(n, shared):
+                return n
+            new = n.__class__()
+            for k, v in n.__dict__.items():
+                if k != "_parent":
+                    new.__dict__[k] = cp(v, new)
+            new._parent = parent  # type: ignore[attr-defined]
+            return new
+        if isinstance(n, list):
+            return [cp(i_, parent) for i_ in n]
+        return n
+
+    return cp(x, getattr(x, "_parent", None))
+
+
 def _wrapping_helper(F: Fn, e: ast.Call, depth: int) -> tuple[ast.AST | None, ast.AST | None] | None:
     """`self._wrap(X)` / `_wrap(X, self.close)` where the package helper's only return is `ClosingIterator(<param>, ...)`
     -> (X, CB) written in the caller's terms.  None when the callee is no such helper; AnalysisError when the callee does
@@ -1308,12 +1346,12 @@ def _wrapping_helper(F: Fn, e: ast.Call, depth: int) -> tuple[ast.AST | None, as
                 why = f"`{norm(s_)[:60]}` in the helper"
                 break
             import copy as _copy
-            env[tg.id] = sub.visit(_copy.deepcopy(s_.value))
+            env[tg.id] = sub.visit(_detached_copy(s_.value))
         if why is None:
             import copy as _copy
             x, cb = inner[0][2]  # type: ignore[misc]
-            x2 = sub.visit(_copy.deepcopy(x)) if x is not None else None
-            cb2 = sub.visit(_copy.deepcopy(cb)) if cb is not None else None
+            x2 = sub.visit(_detached_copy(x)) if x is not None else None
+            cb2 = sub.visit(_detached_copy(cb)) if cb is not None else None
             unknown = [u for u in sub.unknown if u not in __builtins_names__]
             if not unknown:
                 _saw(callee)
@@ -2235,6 +2273,13 @@ def _self_attr_iterated(F: Fn, at, e: ast.AST | None, depth: int = 0, env: dict[
         return e.attr
     if isinstance(e, ast.Call) and isinstance(e.func, ast.Name) and e.func.id in ("list", "tuple", "iter") and len(e.args) == 1 and not e.keywords:
         return _self_attr_iterated(F, at, e.args[0], depth + 1, env)
+    # copies in the same order: `xs[:]`, `xs.copy()`, `[*xs]`
+    if isinstance(e, ast.Subscript) and isinstance(e.slice, ast.Slice) and e.slice.lower is None and e.slice.upper is None and e.slice.step is None:
+        return _self_attr_iterated(F, at, e.value, depth + 1, env)
+    if isinstance(e, ast.Call) and isinstance(e.func, ast.Attribute) and e.func.attr == "copy" and not e.args and not e.keywords:
+        return _self_attr_iterated(F, at, e.func.value, depth + 1, env)
+    if isinstance(e, (ast.List, ast.Tuple)) and len(e.elts) == 1 and isinstance(e.elts[0], ast.Starred):
+        return _self_attr_iterated(F, at, e.elts[0].value, depth + 1, env)
     if isinstance(e, ast.Name):
         bs = bindings(F, at, e)
         got = {(env or {}).get(e.id) if b.kind == "param" else _self_attr_iterated(F, b.node, b.expr, depth + 1, env) if b.kind == "value" and b.path == () and b.node is not None else None for b in bs}
@@ -2491,6 +2536,17 @@ def _next_loop_attr(F: Fn, head, env: dict[str, str] | None) -> tuple[str, bool,
             if isinstance(c1, ast.Compare) and len(c1.ops) == 1 and isinstance(c1.ops[0], ast.Is) and astq.is_name(c1.left, tgt0.id):
                 t_ = ast.Compare(left=ast.NamedExpr(target=tgt0, value=st0.value), ops=[ast.IsNot()], comparators=[c1.comparators[0]])
                 body = body[2:]
+    if isinstance(t_, ast.Constant) and t_.value is True and body and isinstance(body[0], ast.Try):
+        # `while True:` / `try: f = next(it)` / `except StopIteration: break` / ... : exhaustion spelled as the exception
+        tr = body[0]
+        st0 = tr.body[0] if len(tr.body) == 1 else None
+        tgt0 = st0.targets[0] if isinstance(st0, ast.Assign) and len(st0.targets) == 1 else None
+        h = tr.handlers[0] if len(tr.handlers) == 1 else None
+        if (isinstance(tgt0, ast.Name) and h is not None and not tr.orelse and not tr.finalbody and (dotted(h.type) or "").rsplit(".", 1)[-1] == "StopIteration"
+                and len(h.body) == 1 and isinstance(h.body[0], ast.Break) and isinstance(st0.value, ast.Call) and astq.is_name(st0.value.func, "next") and len(st0.value.args) == 1 and not st0.value.keywords):
+            end_ = ast.Name(id="<exhausted>", ctx=ast.Load())
+            t_ = ast.Compare(left=ast.NamedExpr(target=tgt0, value=ast.Call(func=st0.value.func, args=[st0.value.args[0], end_], keywords=[])), ops=[ast.IsNot()], comparators=[end_])
+            body = body[1:]
     if not (isinstance(t_, ast.Compare) and len(t_.ops) == 1 and isinstance(t_.ops[0], ast.IsNot) and isinstance(t_.left, ast.NamedExpr) and isinstance(t_.left.target, ast.Name)):
         return None
     f, v, end = t_.left.target.id, t_.left.value, t_.comparators[0]
@@ -3588,3 +3644,48 @@ def _r57(ctx: Ctx) -> None:
         raise AnalysisError("Response.status: the getter of the property was not found (slot)")
     rets = astq.returns_of(sg.node)
     ctx.ob("R5.7", "Response.status is the stored status line", bool(rets) and all(is_self_attr(r.value, a_line) for r in rets) and a_line != a_code, f"returns {[norm(r.value) for r in rets if r.value is not None]}", sg, sg.node, "status getter")
+
+
+# =====================================================================
+# R5.8: a loop does not change the size of the container it is walking
+
+
+R58_CLASSES = ("datastructures.headers.Headers", "wrappers.response.Response", "wsgi.ClosingIterator")
+
+
+def _r58_scope(ctx: Ctx) -> list[FuncInfo]:
+    repo = ctx.repo
+    fis: dict[str, FuncInfo] = {}
+    for cq in R58_CLASSES:
+        c0 = repo.cls(cq)
+        for c in repo.mro(c0):
+            if isinstance(c, ClassInfo):
+                for fi in c.methods.values():
+                    fis.setdefault(fi.fq, fi)
+    # one level of extraction: functions of the same module (and local functions) that these methods call
+    for fi in list(fis.values()):
+        F = fn_of(repo, fi)
+        for c in astq.calls(fi.node, nested=False):
+            callee = callee_of(F, c)
+            if callee is not None and callee.module is fi.module and callee.fq not in fis:
+                fis[callee.fq] = callee
+    return list(fis.values())
+
+
+def _r58(ctx: Ctx) -> None:
+    n_loops = 0
+    for fi in _r58_scope(ctx):
+        F = fn_of(ctx.repo, fi)
+        for fact in iteration_facts(F):
+            n_loops += 1
+            walked = ", ".join(sorted(fmt_key(k) for k in fact.keys))
+            head = norm(fact.node.iter) if isinstance(fact.node, (ast.For, ast.AsyncFor)) else f"while {norm(fact.node.test)}" if isinstance(fact.node, ast.While) else norm(fact.node)
+            if not fact.hits:
+                ctx.ob("R5.8", f"{fi.qualname}: the loop over `{head[:60]}` leaves the size of {walked} alone while it runs", True,
+                       f"walks {walked} in place; no removal / insertion on it inside the loop after which another iteration follows", fi, fact.node, f"loop over {walked} keeps its size")
+            for what, k in fact.hits:
+                ctx.ob("R5.8", f"{fi.qualname}: the loop over `{head[:60]}` leaves the size of {walked} alone while it runs", False,
+                       f"the loop walks {fmt_key(k)} in place (no copy) and {what} changes its size inside the loop, after which the loop goes on: the entry that moves into the freed (or shifted) position is skipped (or visited twice), so not every entry is processed",
+                       fi, fact.node, f"loop over {fmt_key(k)} changes its size")
+    # 17 today; index loops, loops over copies and rebuilt lists are not counted, so a rewrite may lower the number
+    ctx.floor("R5.8", "loops that walk a nameable container in place (Headers, Response classes, ClosingIterator)", n_loops, 4)
